@@ -39,6 +39,8 @@ pub struct AF<'a> {
     pub stream_end: Option<u64>,
     /// (stamp, strong count after) from the interpreter's reference model
     pub refs: Vec<(u64, i64)>,
+    /// the same without parked send futures (their release happens inside the future, unobserved)
+    pub arc_refs: Vec<(u64, i64)>,
     /// stamp of the Ref(-1) event after which the count is 0 for good
     pub zero_at: Option<u64>,
     /// stamp of the matching RefGone (handle really dropped)
@@ -65,6 +67,17 @@ impl<'a> AF<'a> {
     /// final incarnation's stopped() bracket
     pub fn t_final(&self) -> Option<(u64, Option<u64>)> {
         self.incs.last().and_then(|i| i.t)
+    }
+    pub fn arc_count_at(&self, stamp: u64) -> i64 {
+        let mut c = 0;
+        for (s, n) in &self.arc_refs {
+            if *s <= stamp {
+                c = *n;
+            } else {
+                break;
+            }
+        }
+        c
     }
     pub fn count_at(&self, stamp: u64) -> i64 {
         let mut c = 0;
@@ -98,6 +111,7 @@ pub fn facts<'a>(cx: &'a Cx) -> BTreeMap<u32, AF<'a>> {
             stops: vec![],
             stream_end: None,
             refs: vec![],
+            arc_refs: vec![],
             zero_at: None,
             gone_at: None,
             arc_gone_at: None,
@@ -240,6 +254,7 @@ pub fn facts<'a>(cx: &'a Cx) -> BTreeMap<u32, AF<'a>> {
                             let n = arc_counts.entry(*tag).or_insert(0i64);
                             *n += *delta as i64;
                             arc_last.insert(*tag, (e.stamp, *n));
+                            af.arc_refs.push((e.stamp, *n));
                         }
                         if *c >= 1000 {
                             af.is_child = true;
